@@ -254,6 +254,13 @@ func genC18(tier string, run int, r *simcore.Rand) *harness.Plan {
 	combo := run % 20
 	cfg := C18Config{Server: ServerCfg{Storage: c18Storages[combo%4], Index: c18Indexes[combo/4]}}
 	cfg.PubKey = r.Bool(0.5)
+	// one run in eight: the server stands on a simulated store that fails
+	// now and then (own choice stream: the other runs are as before)
+	rf := simcore.NewRand(simcore.Mix(r.Uint64(), "store-faults"))
+	faulty := rf.Intn(8) == 0
+	if faulty {
+		cfg.Server = ServerCfg{Storage: "sim", Index: []string{"none", "none", "memory"}[rf.Intn(3)]}
+	}
 	g := &c18gen{r: r, up: map[int]bool{}, roots: []string{""}}
 	if cfg.Server.Index != "none" {
 		g.roots = append(g.roots, "bs")
@@ -364,7 +371,31 @@ func genC18(tier string, run int, r *simcore.Rand) *harness.Plan {
 			ops = append(ops, hb)
 		}
 	}
-	p := &harness.Plan{Mode: "c18", Config: harness.MustJSON(cfg), Bubble: true}
+	var faults []sim.Fault
+	if faulty {
+		// no long-polls and no delays: the waiting side of the protocol is
+		// judged on healthy stores
+		for i := range ops {
+			ops[i].Wait, ops[i].Delay = 0, 0
+		}
+		add := func(method string, kinds []string, p float64, kmax int) {
+			for k := 1; k <= kmax; k++ {
+				if rf.Bool(p) {
+					f := sim.Fault{Seam: "bs", Method: method, K: k, Kind: kinds[rf.Intn(len(kinds))]}
+					if f.Kind == sim.FIterErr {
+						f.Arg = rf.Range(0, 4)
+					}
+					faults = append(faults, f)
+				}
+			}
+		}
+		rate := []float64{0.05, 0.15, 0.3}[rf.Intn(3)]
+		add("EnumerateBlobs", []string{sim.FErr, sim.FIterErr, sim.FIterErr}, rate, 40)
+		add("StatBlobs", []string{sim.FErr}, rate, 60)
+		add("Fetch", []string{sim.FErr}, rate, 60)
+		add("ReceiveBlob", []string{sim.FErr, sim.FErrAfter}, rate/2, 60)
+	}
+	p := &harness.Plan{Mode: "c18", Config: harness.MustJSON(cfg), Bubble: true, Faults: faults}
 	// Lock sites are not scheduling points here (LockYield 0): the server's
 	// own goroutines (sync-to-index loop, hub notifications, index) reach
 	// lock sites in an order that depends on Go map iteration inside perkeep
